@@ -222,7 +222,8 @@ PROPS = {
     },
     "C05": {
         "theorems": ["C05_complete_core", "C05_unsat_means_no_valid_schedule", "task_complete", "reqs_complete",
-                     "core_raw_complete", "noOverlapPairs_complete"],
+                     "core_raw_complete", "noOverlapPairs_complete", "interruptedOne_complete", "periodicOne_complete",
+                     "periodicInterruptedOne_complete"],
         "profiles": [("all", 0.35), ("frag", 0.25), ("resc", 0.15), ("fol", 0.25)],
         "relevant": lambda o: True,
         "spec": None,
@@ -247,7 +248,7 @@ PROPS = {
         "theorems": ["C06_scheduled_as_mandatory", "C06_parked", "C06_busy_parked", "C06_blocks_nobody",
                      "C06_constraint_inert", "C06_no_indicator_contribution", "C11_unscheduled_no_assignment",
                      "C03_raw_sound"],
-        "profiles": [("all", 0.5), ("taskc", 0.25), ("obj", 0.25)],
+        "profiles": [("all", 0.35), ("taskc", 0.2), ("obj", 0.15), ("focus_resc", 0.15), ("resc", 0.1), ("focus_taskc", 0.05)],
         "relevant": lambda o: True,
         "spec": None,
         "exact": True,
@@ -293,7 +294,7 @@ PROPS = {
         "relevant": lambda o: False,
         "spec": None,
         "sm_profiles": ["taskc", "core", "obj"], "run_profiles": ["taskc", "core"],
-        "n_sm": {"quick": 120, "thorough": 2500}, "n_run": {"quick": 20, "thorough": 300},
+        "n_sm": {"quick": 120, "thorough": 2500}, "n_run": {"quick": 50, "thorough": 500},
         "run_check": __import__("harness.solverprops", fromlist=["x"]).run_c12,
         "nontrivial": lambda s: True,
         "rule": "SM: call sequences with find_another_solution / find_another_solution_for_variable under a scripted "
